@@ -6,11 +6,11 @@ for d in seeded/${1:-*}; do
   [ -f "$d/patch.diff" ] || continue
   id=$(basename "$d" | cut -d- -f1)
   D=$(mktemp -d /dev/shm/mrepo-XXXXXX)
-  cp -r /repo/py7zr "$D/py7zr"; mkdir -p "$D/tests"
+  cp -r /repo/py7zr "$D/py7zr"; ln -s /repo/tests "$D/tests"
   if ! ( cd "$D" && patch -p1 -s --dry-run < "$OLDPWD/$d/patch.diff" >/dev/null 2>&1 ); then echo "$(basename $d) NOAPPLY"; rm -rf "$D"; continue; fi
   ( cd "$D" && patch -p1 -s < "$OLDPWD/$d/patch.diff" >/dev/null 2>&1 )
-  VERIF_REPO="$D" VERIF_NO_EVIDENCE=1 ./check "$id" quick > /tmp/seedall-last.log 2>&1; rc=$?
+  VERIF_REPO="$D" VERIF_NO_EVIDENCE=1 ./check "$id" quick > /tmp/seedall-last-$$.log 2>&1; rc=$?
   rm -rf "$D"
   case $rc in 1) r=DETECTED;; 0) r=MISSED;; *) r="BROKEN($rc)";; esac
-  echo "$(basename $d) $r $(grep -m1 'key=' /tmp/seedall-last.log | cut -c1-110)"
+  echo "$(basename $d) $r $(grep -m1 'key=' /tmp/seedall-last-$$.log | cut -c1-110)"
 done
